@@ -85,7 +85,10 @@ class Paths:
                 nodes.append(n["tail"])
             return bump(self.seq_nodes(nodes))
         if k == "blk":
-            return bump(self.out(n["b"]))
+            o = self.out(n["b"])
+            if n.get("lbl") is not None:   # inlined helper: its `return` became a break to this label
+                o = {((FALL if kk == ("break", n["lbl"]) else kk), c) for (kk, c) in o}
+            return bump(o)
         if k == "let":
             o = self.out(n["init"])
             if n.get("els") is not None:
@@ -256,3 +259,125 @@ def local_hid(n):
     if n is not None and n.get("k") == "local":
         return n["hid"]
     return None
+
+
+# ---------------------------------------------------------------------------
+# path conditions: what must have been decided for control to reach a node
+
+NEG = {"Gt": "Le", "Ge": "Lt", "Lt": "Ge", "Le": "Gt", "Eq": "Ne", "Ne": "Eq"}
+
+
+def negate(cn):
+    """structural negation of a condition node, or None when it has no simple form."""
+    cn = strip(cn)
+    if cn is None:
+        return None
+    if cn.get("k") == "un" and cn["op"] == "Not":
+        return strip(cn["x"])
+    if cn.get("k") == "bin" and cn["op"] in NEG and False:
+        return None
+    if cn.get("k") == "bin" and cn["op"] in NEG:
+        d = dict(cn)
+        d["op"] = NEG[cn["op"]]
+        d["negated_int_cmp"] = True   # exact for integers only (NaN-free); callers check operand types
+        return d
+    return None
+
+
+def path_conditions(crate, root, target):
+    """Conditions under which `target` is reached inside `root`, outermost / earliest first.
+
+    Each item: dict(c=<condition node>, pol=True|False, node=<the if / guard statement>, kind='if'|'guard').
+    Besides the enclosing `if`s (branch taken = polarity) this includes *guard clauses*: an earlier sibling
+    statement `if c { <never falls through> }` contributes (c, False); `if c {..} else { <never falls through> }`
+    contributes (c, True); `let p = match e { pat => v, _ => <diverges> }` and `let pat = e else { <diverges> }`
+    contribute a synthetic `let pat = e` condition with polarity True.  "Never falls through" is decided by
+    the abstract path enumeration (every outcome is break/continue/return, or there is none: panic)."""
+    P = Paths(crate, lambda n: False)
+    chain = []
+
+    def find(n):
+        if n is target:
+            chain.append(n)
+            return True
+        if n is None:
+            return False
+        for ch in children(n):
+            if ch is not None and find(ch):
+                chain.append(n)
+                return True
+        return False
+    if not find(root):
+        return None
+    chain.reverse()
+    out = []
+
+    def exits(n):
+        o = P.out(n)
+        return all(k != FALL for (k, _) in o)
+
+    def guards_of_stmt(s0):
+        s = strip(s0)
+        if s is None:
+            return
+        if s.get("k") == "if":
+            th_ex = exits(s["th"])
+            el_ex = s["el"] is not None and exits(s["el"])
+            if th_ex and not el_ex:
+                out.append(dict(c=s["c"], pol=False, node=s, kind="guard"))
+            elif el_ex and not th_ex:
+                out.append(dict(c=s["c"], pol=True, node=s, kind="guard"))
+            return
+        if s.get("k") == "let":
+            init = strip(s.get("init"))
+            if s.get("els") is not None and exits(s["els"]):
+                out.append(dict(c={"k": "letx", "pat": s["pat"], "init": s["init"]}, pol=True, node=s, kind="guard"))
+                return
+            if init is not None and init.get("k") == "match":
+                live = [a for a in init["arms"] if not exits(a["body"])]
+                if len(live) == 1 and len(init["arms"]) > 1 and live[0].get("guard") is None:
+                    pat = live[0]["pat"]
+                    b = strip(live[0]["body"])
+                    binds = pat_binds(pat)
+                    lp = s["pat"]
+                    # `Some(v) => v` bound by a plain `let x`: the value of x is the payload
+                    if b is not None and b.get("k") == "local" and lp.get("k") == "bind" and len(binds) == 1 and b["hid"] == binds[0][1]:
+                        import copy
+                        pat = copy.deepcopy(pat)
+                        for q in _pat_walk(pat):
+                            if q.get("k") == "bind" and q["hid"] == binds[0][1]:
+                                q["hid"] = lp["hid"]
+                                q["name"] = lp["name"]
+                    out.append(dict(c={"k": "letx", "pat": pat, "init": init["scrut"]}, pol=True, node=s, kind="guard"))
+
+    for i, n in enumerate(chain[:-1]):
+        nxt = chain[i + 1]
+        k = n.get("k")
+        if k == "block":
+            for s in n["stmts"]:
+                if s is nxt:
+                    break
+                guards_of_stmt(s)
+        elif k == "if":
+            if nxt is n["th"]:
+                out.append(dict(c=n["c"], pol=True, node=n, kind="if"))
+            elif n["el"] is not None and nxt is n["el"]:
+                out.append(dict(c=n["c"], pol=False, node=n, kind="if"))
+    return out
+
+
+def _pat_walk(p):
+    if p is None:
+        return
+    yield p
+    k = p.get("k")
+    if k == "bind" and p.get("sub"):
+        yield from _pat_walk(p["sub"])
+    elif k in ("tuple", "tstruct", "or"):
+        for q in p["ps"]:
+            yield from _pat_walk(q)
+    elif k == "struct":
+        for _, q in p["fs"]:
+            yield from _pat_walk(q)
+    elif k in ("ref", "deref"):
+        yield from _pat_walk(p["p"])
